@@ -467,3 +467,73 @@ def prefix_string_cases(tier):
         for n in lens:
             out.append((fname, fam, n))
     return out
+
+
+# ---------------------------------------------------------------------------------------------------------------- dns-routes
+@csummary("core::str::chars", "str::chars")
+def _cfg_chars(ex, c):
+    s_ = deref(ex, c.args[0])
+    if s_.text is None:
+        raise Unsupported("characters of symbolic text")
+    return Opaque("Iter", items=[BV(z3.BitVecVal(ord(ch), 32)) for ch in s_.text])
+
+
+@csummary("char::is_ascii", "core::char::methods::is_ascii", "core::char::is_ascii", "char::methods::is_ascii")
+def _cfg_is_ascii(ex, c):
+    ch = deref(ex, c.args[0]) if isinstance(c.args[0], Ref) else c.args[0]
+    return Bool(z3.ULT(ch.t, 128))
+
+
+def dns_route_obligation(prog, enums, structs, suffixes, kind):
+    """dns::config::parse_dns_route on {domain-suffixes: [..concrete names..], type: kind}: the loaded route lists exactly the written
+    suffixes, in the written order, label by label"""
+    fn = find1(prog, "parse_dns_route", 2, "dns")
+    ex = mk_exec(prog, enums, unroll=max(40, max([len(x) for x in suffixes] + [0]) + 6))
+
+    def run(e):
+        doc = y_hash([("domain-suffixes", y_arr([y_str(x) for x in suffixes])), ("type", y_str(kind))])
+        return e.call_fn(fn, [Str(text="dns-routes"), Ref(Cell(doc))])
+    paths = ex.explore(run)
+    failed, kinds = [], {}
+    for outcome, val, pc, env in paths:
+        claims = []
+        if outcome == "panic":
+            kinds["panic"] = kinds.get("panic", 0) + 1
+            claims.append(("loading a dns route returns a route or an error, it never panics: " + str(val), z3.BoolVal(False)))
+        else:
+            k = classify(val)
+            kinds[k] = kinds.get(k, 0) + 1
+            if k != "ok:Some":
+                claims.append(("a well-formed route is accepted", z3.BoolVal(False)))
+            else:
+                route = val.fields[0].fields[0]
+                got = field(structs, route, "suffixes").items
+                want = [[lab.encode() for lab in x.split(".") if lab] for x in suffixes]
+                ok_ = len(got) == len(want)
+                if ok_:
+                    for g, w in zip(got, want):
+                        labs = g.fields[0].items
+                        if len(labs) != len(w):
+                            ok_ = False
+                            break
+                        for lg, lw in zip(labs, w):
+                            bs = [z3.simplify(b.t) for b in lg.fields[0].items]
+                            if len(bs) != len(lw) or any((not z3.is_bv_value(b)) or b.as_long() != o for b, o in zip(bs, lw)):
+                                ok_ = False
+                claims.append(("the loaded route lists exactly the written suffixes, in the written order (nested or repeated ones included)", z3.BoolVal(ok_)))
+                dest = field(structs, route, "dest")
+                claims.append(("the loaded route has the written type", z3.BoolVal(dest.variant == {"forward": "Forward", "forge-nxdomain": "ForgeNxDomain"}[kind])))
+        for name, f in claims:
+            m = check(ex, pc, f, name)
+            if m is not None:
+                failed.append(dict(check="", description=name, location="dns/config.rs parse_dns_route", kind="violation",
+                                   counterexample=dict(config_section="dns-routes", suffixes=list(suffixes), type=kind, outcome=outcome if outcome == "panic" else classify(val))))
+    return failed, ex, len(paths), kinds
+
+
+def dns_route_cases(tier):
+    out = [(["example.com", "vpn.partner.example.com"], "forward"), (["vpn.partner.example.com", "example.com"], "forge-nxdomain"), (["invalid"], "forge-nxdomain"), ([""], "forward"),
+           (["a.b", "b", "a.b"], "forward"), (["Example.COM", "example.com"], "forward")]
+    if tier == "thorough":
+        out += [(["x.y.z", "y.z", "z", ""], "forward"), (["co", "com", "corp.example.com"], "forge-nxdomain")]
+    return out
